@@ -267,6 +267,8 @@ class Check:
         os.makedirs(self.outdir, exist_ok=True)
         os.makedirs(os.path.join(OUT, "replays"), exist_ok=True)
         self.rng = random.Random(self.seed)
+        global _current_check
+        _current_check = self
 
     @property
     def quick(self):
@@ -330,21 +332,39 @@ class Check:
         return 1 if new else 0
 
 
+_current_check = None
+
+
+def _tool_error(msg):
+    """A tool error ends the check with exit 2 - unless violations (with witnesses) had already been found: those stand
+    on their own observations, and a later phase that cannot cope with the broken code must not hide them."""
+    log("TOOL-ERROR: " + msg)
+    c = _current_check
+    if c is not None and c.violations:
+        log("NOTE violations found before the tool error are reported; the phases after it did not run")
+        c.assumptions.append("the check ended early with a tool error after these violations had been found: " + msg[:300])
+        try:
+            code = c.finish()
+        except Exception:
+            code = 2
+        sys.exit(1 if code == 1 else 2)
+    sys.exit(2)
+
+
 def run_check(fn):
     """Wraps a check's main: tool errors -> exit 2 without a VIOLATION line."""
     try:
         code = fn()
     except ToolError as ex:
-        log("TOOL-ERROR: " + str(ex))
-        sys.exit(2)
+        _tool_error(str(ex))
     except subprocess.TimeoutExpired as ex:
-        log("TOOL-ERROR: timeout " + str(ex))
-        sys.exit(2)
+        _tool_error("timeout " + str(ex))
+    except SystemExit:
+        raise
     except Exception:
         # a bug of the machinery is a tool error, never a verdict about the code under test
         import traceback
-        log("TOOL-ERROR: unexpected exception in the check itself\n" + traceback.format_exc())
-        sys.exit(2)
+        _tool_error("unexpected exception in the check itself\n" + traceback.format_exc())
     sys.exit(code)
 
 
